@@ -29,6 +29,7 @@ CONSTANTS Hosts,       \* host names (model values or strings)
           PortsC,      \* subset of {"def", "alt"}
           MaxRed,      \* RedirectTracker.max_redirects
           MaxHops,     \* bound of the exploration: requests per visit
+          Statuses,    \* status codes the server uses: subset of {200, 301, 302, 303, 307, 308, 401, 500}
           FixCopy      \* TRUE: repaired _process_redirect (fields derived from the URL are not copied)
 
 URLs == [scheme : Schemes, host : Hosts, port : PortsC, path : Paths, creds : BOOLEAN]
@@ -126,16 +127,17 @@ Respond(status, kind, loc, setcookie) ==
              /\ UNCHANGED <<alias, copyflag>>
         ELSE /\ nxt' = NoReq /\ loop' = "normal" /\ phase' = "done" /\ jar' = jar1
              /\ UNCHANGED <<orig, alias, hwa, copyflag>>
-  /\ UNCHANGED <<last, nsent>>
+  /\ last' = NoReq       \* the observation has been consumed (it is checked in the state right after Start)
+  /\ UNCHANGED nsent
 
-Statuses == {200, 301, 302, 303, 307, 308, 401, 500}
+Redirects == {301, 302, 303, 307, 308}
 AnyURL == CHOOSE u \in URLs : TRUE
 
 \* kind: the Location field is a URL ("url": loc), absent ("missing") or unparsable ("bad")
-RespondAny == \E st \in Statuses, kind \in {"url", "missing", "bad"}, loc \in URLs, sc \in BOOLEAN :
-                 /\ (st \notin {301, 302, 303, 307, 308} => kind = "missing")
-                 /\ (kind # "url" => loc = AnyURL)
-                 /\ Respond(st, kind, loc, sc)
+RespondAny ==
+  \/ \E st \in Statuses \ Redirects, sc \in BOOLEAN : Respond(st, "missing", AnyURL, sc)
+  \/ \E st \in Statuses \cap Redirects, kind \in {"missing", "bad"}, sc \in BOOLEAN : Respond(st, kind, AnyURL, sc)
+  \/ \E st \in Statuses \cap Redirects, loc \in URLs, sc \in BOOLEAN : Respond(st, "url", loc, sc)
 
 Next == Start \/ RespondAny
 Spec == Init /\ [][Next]_vars
